@@ -160,7 +160,8 @@ func rewriteGo(g *ast.GoStmt, site string) ast.Stmt {
 	sites = append(sites, site)
 	siteLit := &ast.BasicLit{Kind: token.STRING, Value: fmt.Sprintf("%q", site)}
 	if fl, ok := call.Fun.(*ast.FuncLit); ok && len(call.Args) == 0 {
-		return &ast.GoStmt{Call: &ast.CallExpr{Fun: ast.NewIdent("verifGo"), Args: []ast.Expr{siteLit, fl}}}
+		return &ast.GoStmt{Call: &ast.CallExpr{Fun: ast.NewIdent("verifGoP"), Args: []ast.Expr{
+			&ast.CallExpr{Fun: ast.NewIdent("verifSelf")}, siteLit, fl}}}
 	}
 	// evaluate the arguments now, run the call inside the wrapper
 	var stmts []ast.Stmt
@@ -173,7 +174,8 @@ func rewriteGo(g *ast.GoStmt, site string) ast.Stmt {
 	inner := &ast.CallExpr{Fun: call.Fun, Args: newArgs, Ellipsis: call.Ellipsis}
 	wrapper := &ast.FuncLit{Type: &ast.FuncType{Params: &ast.FieldList{}},
 		Body: &ast.BlockStmt{List: []ast.Stmt{&ast.ExprStmt{X: inner}}}}
-	stmts = append(stmts, &ast.GoStmt{Call: &ast.CallExpr{Fun: ast.NewIdent("verifGo"), Args: []ast.Expr{siteLit, wrapper}}})
+	stmts = append(stmts, &ast.GoStmt{Call: &ast.CallExpr{Fun: ast.NewIdent("verifGoP"), Args: []ast.Expr{
+		&ast.CallExpr{Fun: ast.NewIdent("verifSelf")}, siteLit, wrapper}}})
 	return &ast.BlockStmt{List: stmts}
 }
 
@@ -186,6 +188,18 @@ func (c *fctx) stmts(in []ast.Stmt) []ast.Stmt {
 		case k == "go":
 			site := c.site("go")
 			out = append(out, pointStmt(site+"@"), rewriteGo(s.(*ast.GoStmt), site))
+			continue
+		case k == "select":
+			site := c.site(k)
+			out = append(out, pointStmt(site))
+			for i, cc := range s.(*ast.SelectStmt).Body.List {
+				cl := cc.(*ast.CommClause)
+				arm := &ast.ExprStmt{X: &ast.CallExpr{Fun: ast.NewIdent("verifArm"), Args: []ast.Expr{
+					&ast.BasicLit{Kind: token.STRING, Value: fmt.Sprintf("%q", site)},
+					&ast.BasicLit{Kind: token.INT, Value: fmt.Sprint(i)}}}}
+				cl.Body = append([]ast.Stmt{arm}, cl.Body...)
+			}
+			out = append(out, s)
 			continue
 		case k != "":
 			out = append(out, pointStmt(c.site(k)))
